@@ -40,6 +40,12 @@ PRE = ("From EsVerif.Common Require Import Base Bytes.\n"
        "From EsVerif.C03 Require Import Model Spec Exec.\n"
        "From Coq.Strings Require Import Byte String.\nOpen Scope list_scope.\n")
 
+# Reading through the SAME object that wrote (sf.read(header=True) on an SFile opened with 'r+') is one more form of the
+# `read` operation.  On /repo HEAD it is wrong (Records::Write overwrites its row count with the size of the last chunk);
+# fixes/C03/0004 repairs it.  The form is generated once that patch is in the tree: set this to True then (or run with
+# VERIF_C03_SAME_HANDLE=1 to try it before).
+SAME_HANDLE_READS = True  # fixes/C03/0004 is in /repo (integrated)
+
 _TMP = [None, 0]
 RESERVED_LOWER = ("_size", "_nrows", "_delim", "_shape", "_has_fields", "_dtype", "_version")
 DELIMS = [None, ",", "\t", " "]
@@ -435,8 +441,9 @@ class Builder:
         self.ops.append({"k": "fn", "append": bool(append), "dl": self.dl if dl == "base" else dl, "c": c, "hdr": self.hdr(h),
                          "view": self._view(c), "via": self._pick(["sfile", "sfile", "swapped", "io"]), "kw": self._pick(["full", "minimal"])})
 
-    def read(self):
-        self.ops.append({"k": "read", "via": self._pick(["fn", "fn", "cls", "slice", "io", "hdr"])})
+    def read(self, via=None):
+        pool = ["fn", "fn", "cls", "slice", "io", "hdr"] + (["same", "same"] if SAME_HANDLE_READS else [])
+        self.ops.append({"k": "read", "via": via or self._pick(pool)})
 
     def case(self, family, adv=True):
         return {"chunks": self.chunks, "ops": self.ops, "family": family, "adv": adv}
@@ -505,6 +512,9 @@ def adversarial(r, textual, dl):
         if i == 2:
             b.fn(False, h={"restart": True}); b.read()
     cs.append(b.case("adv:interleaved:" + tag))
+    if SAME_HANDLE_READS:
+        b = B(); b.fn(False, h={"same": 1}); b.reopen(); b.read("same"); b.again(); b.read("same"); b.again(); b.again(); b.read("same")
+        b.close(); b.read(); cs.append(b.case("adv:same-handle-read:" + tag))
     # misuse outside the statement (correspondence only): write with no object open, append to an empty file
     b = B(); b.again(); b.read(); b.create(); b.close(); b.again(); b.read(); cs.append(b.case("adv:misuse-no-object:" + tag, adv=False))
     b = B(); b.reopen(); b.close(); b.fn(True); b.reopen(); b.read(); b.fn(False); b.read(); cs.append(b.case("adv:misuse-empty-file:" + tag, adv=False))
@@ -732,7 +742,11 @@ def run_history(case):
                     sfile.write(fname, data_in, **kw)
             elif k == "read":
                 via = o.get("via", "fn")
-                if via == "cls":
+                if via == "same" and getattr(sf, "_robj", None) is not None and sf.get_mode() == "r+":
+                    # through the object that is open for appending (otherwise: the plain form)
+                    data, h = sf.read(header=True)
+                    assert sf.nrows == h["_SIZE"] == len(sf._robj)
+                elif via == "cls":
                     with sfile.SFile(fname) as rs:
                         data, h = rs.read(header=True)
                 elif via == "slice":
@@ -1090,8 +1104,8 @@ def coqchk_step(ctx):
         ctx.violation("coqchk rejects C03/Properties.vo or reports axioms", {"kind": "coqchk", "log_tail": r.stdout[-2000:]}, found_input=False)
 
 
-ENTRIES = [Witness("witness_append_missing"), Witness("witness_incompatible_binary_append"), Witness("witness_read_while_open"),
-           History()]
+ENTRIES = [Witness("witness_append_missing"), Witness("witness_incompatible_binary_append"), Witness("witness_read_while_open")] \
+    + ([Witness("witness_same_handle_read")] if SAME_HANDLE_READS else []) + [History()]
 
 TRUSTED = [
     "Coq 8.16.1 kernel (coqc, vm_compute; no native_compute); every C03 theorem is closed under the global context (no axioms)",
@@ -1113,7 +1127,11 @@ TRUSTED = [
 def run(ctx, replay=None):
     ctx.rule = ("corpus + adversarial histories named in the quantifier (append to a missing file, several writes through one object with "
                 "reads in between, appends by reopening in function and class form, overwrite, every family of incompatible append, ignored "
-                "header/delimiter keywords) for binary and each text delimiter + seeded random histories (<= 8 ops, thorough <= 40); each "
+                "header/delimiter keywords, long 'w' and 'r+' handles, interleaved reopen/append/overwrite, chunks of 1 .. > 16384 rows) for "
+                "binary and each text delimiter + seeded random histories (<= 8 ops, thorough <= 40); every operation is issued in a "
+                "randomly chosen FORM (sfile.write / (data, file) order / esutil.io.write; SFile() / SFile.open on the same object / "
+                "sfile.Open; keywords omitted or given as their defaults; the chunk as plain array, recarray, strided view, reversed "
+                "view, read-only, 0-d, 2-d; reads through sfile.read, SFile.read, sf[:], io.read, read_header); each "
                 "history is executed on the real esutil and evaluated in Coq (model answers and file bytes after every operation = real "
                 "ones; verified checker hist_check on the real observations).  non-trivial: a named adversarial history, or >= 2 accepted "
                 "writes, >= 1 read and >= 2 fields.  distinct by canonical JSON.")
